@@ -274,7 +274,8 @@ def finding_shape(sch, mem, legal):
     which occurs at several places of the library's AND/OR/ANDOR hierarchy:
     A  S lacks a supertype, but only supertypes of multiply inheriting members that still have another supertype in S
        below the same root(s);
-    B  S is closed under supertypes, is illegal, and holds a multiply inheriting member;
+    B  S is closed under supertypes, is illegal, and a member whose own constraint (ABSTRACT, ONEOF/AND/ANDOR) S violates is a
+       multiply inheriting entity, a descendant of one or an ancestor of one;
     C  S is legal and holds a multiply inheriting member whose supertypes lead to two or more roots."""
     S = set(mem)
     multi = [e for e in S if len(sch.ent(e)["supers"]) > 1]
@@ -296,7 +297,14 @@ def finding_shape(sch, mem, legal):
                 return None                     # the missing supertype hangs below a root that S does not reach at all
         return SHAPE_A
     if not legal:
-        return SHAPE_B
+        # B is the defect of an entity that occurs at several places of the hierarchy (a multiply inheriting entity and
+        # everything below it): it only explains a wrongly created instance when the member whose constraint S violates is
+        # such an entity, lies below one, or has one below it (then one of its operands occurs at several places)
+        for owner in sch.violated_constraints(S):
+            for m in multi:
+                if owner == m or owner in sch.ancestors(m) or m in sch.ancestors(owner):
+                    return SHAPE_B
+        return None
     for m in multi:
         roots = [a for a in sch.ancestors(m) if not sch.ent(a)["supers"]]
         if len(roots) > 1:
@@ -535,6 +543,15 @@ def draw_graphs(tier, seed, ev):
         graphs.append(g[0])
     if tier != "quick":
         ev.extra["expression_shapes_enumerated"] = len(shapes)
+    # the enumerated two-root family (c08gen.family_graph): every member in the thorough tier, a seeded sample in the quick tier
+    fam = c08gen.family()
+    if tier == "quick":
+        rnd = random.Random(common.sub_seed(seed, PROP, "family-pick"))
+        fam = rnd.sample(fam, len(fam) // 3)
+    else:
+        ev.extra["two_root_family_enumerated"] = len(fam)
+    for prm in fam:
+        graphs.append(c08gen.family_graph(prm))
     # distinct by text
     seen = set()
     out = []
